@@ -98,6 +98,12 @@ VERTS = {
     "v4": [[1.0, 0.0], [0.0, 0.25], [0.0, 2.0], [1.75, 1.5]],
     "v5b": [[1.5, 0.0], [0.0, 0.5], [-0.5, 2.0], [1.0, 1.0], [2.5, 2.25]],
     "v6b": [[0.0, 0.0], [0.25, 2.0], [1.0, 0.75], [2.0, -0.5], [2.25, 1.5], [3.0, 0.5]],
+    # fans: vertex 0 has degree 6 (data-pixel sub-grids falling into several fan triangles touch many distinct vertices)
+    "fan7": [[0.015625, -0.03125], [0.09375, 0.609375], [0.59375, 0.265625], [0.515625, -0.453125], [-0.09375, -0.703125], [-0.6875, -0.265625],
+             [-0.640625, 0.4375]],
+    "fan14": [[0.015625, -0.03125], [0.09375, 0.609375], [0.59375, 0.265625], [0.515625, -0.453125], [-0.09375, -0.703125], [-0.6875, -0.265625],
+              [-0.640625, 0.4375], [0.46875, 1.265625], [1.34375, 0.359375], [1.265625, -0.671875], [0.5, -1.375], [-0.875, -1.234375],
+              [-1.53125, -0.21875], [-1.0625, 1.1875]],
     "v9": [[0.0, 0.0], [0.0, 1.0], [0.125, 2.0], [1.0, 0.125], [1.125, 1.125], [1.0, 2.25], [2.0, 0.0], [2.25, 1.0], [2.0, 2.125]],
 }
 
@@ -225,6 +231,27 @@ def _or(*cs):
     return r
 
 
+def _adapt(inp, D):
+    """adapt data (one value per unmasked pixel) handed to MapperGrids; only mapper.pixel_signals_from reads it"""
+    a = inp.get("adapt") if hasattr(inp, "get") else None
+    if a is None:
+        return None
+    a = np.asarray(a, dtype=object).reshape(-1)[:D]
+    return a if any(_sym(e) for e in a) else a.astype(float)
+
+
+def _adapt_input(ctx, adapt, Dmax):
+    """adapt: None (no adapt data), "sym" (symbolic reals in [1/16, 16]) or a list of concrete values"""
+    if adapt is None:
+        return None
+    if adapt == "sym":
+        a = V.real_array("adapt", (Dmax,))
+        for e in a:
+            ctx.assume(z3.And(e.t >= V.rval(0.0625), e.t <= 16))
+        return a
+    return np.array([float(adapt[k % len(adapt)]) for k in range(Dmax)])
+
+
 def _setup(mask, sub):
     """mask / over-sampler of the data plane; returns (mask2d, over_sampler, sub_list, slim_for_sub (reference), fractions (reference))"""
     import autoarray as aa
@@ -273,6 +300,10 @@ def _matrix_checks(A, E, mapper, Eref, D, P, ref_slim, ref_frac, psw_ok=True):
     if isinstance(um, hx.Raised):
         A["e2e_unique_decoded"], E["e2e_unique_decoded"] = um, "no exception"
     else:
+        ln_, wd_ = np.asarray(hx.unwrap(um.pix_lengths)), np.asarray(hx.unwrap(um.data_to_pix_unique)).shape
+        A["unique_pix_lengths_within_stored_width"] = bool(len(wd_) == 2 and wd_[0] == D and np.asarray(hx.unwrap(um.data_weights)).shape == wd_
+                                                           and all(0 <= int(v) <= wd_[1] for v in ln_))
+        E["unique_pix_lengths_within_stored_width"] = True
         dec = hx.attempt(_decode_unique, um, D, P)
         if isinstance(dec, hx.Raised):
             A["e2e_unique_decoded"], E["e2e_unique_decoded"] = dec, "decodable"
@@ -289,6 +320,22 @@ def _matrix_checks(A, E, mapper, Eref, D, P, ref_slim, ref_frac, psw_ok=True):
 
 def _ge0(x):
     return x >= 0
+
+
+def _run_order(A, E, mapper, order, scale):
+    """history on ONE mapper object: evaluate its (cached) products in the given order; "signals" = mapper.pixel_signals_from(...).
+    The obligations afterwards read the cached products, so they see whatever an earlier call did to shared state."""
+    for n, op in enumerate(order or []):
+        if op == "signals":
+            r = hx.attempt(lambda: mapper.pixel_signals_from(signal_scale=scale))
+        elif op == "matrix":
+            r = hx.attempt(lambda: mapper.mapping_matrix)
+        elif op == "unique":
+            r = hx.attempt(lambda: mapper.unique_mappings)
+        else:
+            r = hx.attempt(lambda: mapper.pix_sub_weights)
+        A["history_%d_%s_no_exception" % (n, op)] = r if isinstance(r, hx.Raised) else "ok"
+        E["history_%d_%s_no_exception" % (n, op)] = "ok"
 
 
 def _sum(xs):
@@ -328,7 +375,7 @@ def _num(v):
     return v
 
 
-def body_rect(inp, mask, sub, H, W, box, ext=None, **_):
+def body_rect(inp, mask, sub, H, W, box, ext=None, order=None, scale=1.0, **_):
     """class level: mesh.Rectangular -> MapperGrids -> Mapper on a source-plane grid whose bounding box is concrete
     (attained by the anchor sub-pixels) and whose remaining coordinates are free"""
     import autoarray as aa
@@ -352,13 +399,14 @@ def body_rect(inp, mask, sub, H, W, box, ext=None, **_):
     def build():
         grid = aa.Grid2DIrregular(values=pos)
         mesh = aa.mesh.Rectangular(shape=(H, W))
-        mg = mesh.mapper_grids_from(mask=m, source_plane_data_grid=grid, border_relocator=None)
+        mg = mesh.mapper_grids_from(mask=m, source_plane_data_grid=grid, border_relocator=None, adapt_data=_adapt(inp, D))
         return aa.Mapper(mapper_grids=mg, over_sampler=os_, regularization=None)
 
     mapper = hx.attempt(build)
     if isinstance(mapper, hx.Raised):
         return {"mapper_constructed": mapper}, {"mapper_constructed": "no exception"}
     A["mapper_type"], E["mapper_type"] = type(mapper).__name__, "MapperRectangular"
+    _run_order(A, E, mapper, order, scale)
     psw = hx.attempt(lambda: mapper.pix_sub_weights)
     if isinstance(psw, hx.Raised):
         return {"pix_sub_weights": psw}, {"pix_sub_weights": "no exception"}
@@ -490,7 +538,7 @@ def _mask_from(ctx, mshape, mask):
     return ctx.concrete_bools(mb)
 
 
-def case_rect(ctx, mshape, sub, H, W, box, anchors, regions, mask=None, span=8.0):
+def case_rect(ctx, mshape, sub, H, W, box, anchors, regions, mask=None, span=8.0, order=None, scale=1.0, adapt=None):
     """anchors: indices (into the sub-pixel list, modulo its length) of the sub-pixels attaining y_max, y_min, x_max, x_min;
     box: name of a concrete bounding box (those four coordinates are then concrete) or None (every coordinate symbolic, the
     anchors are only assumed to be the extremes);
@@ -546,7 +594,10 @@ def case_rect(ctx, mshape, sub, H, W, box, anchors, regions, mask=None, span=8.0
         ctx.assume(b, group="e2e")
     ctx.set_case(mask=mask.tolist())
     inputs = {"pos": pos}
-    kw = {"mask": mask.tolist(), "sub": sub, "H": H, "W": W, "box": box, "ext": a}
+    ad = _adapt_input(ctx, adapt, int(np.prod(mshape)))
+    if ad is not None:
+        inputs["adapt"] = ad
+    kw = {"mask": mask.tolist(), "sub": sub, "H": H, "W": W, "box": box, "ext": a, "order": order, "scale": scale}
     hx.run_body(ctx, body_rect, inputs, kw, tol=TOLS, validate_every=8, groups=lambda k: "e2e" if k.startswith("e2e") else None)
 
 
@@ -758,7 +809,7 @@ def _dist2_lin(v, p):
     return v[0] * v[0] + v[1] * v[1] - 2 * (v[0] * p[0] + v[1] * p[1])
 
 
-def body_del(inp, mask, sub, verts, **_):
+def body_del(inp, mask, sub, verts, order=None, scale=1.0, **_):
     import autoarray as aa
     m, os_, sub_list, ref_slim, ref_frac = _setup(mask, sub)
     D, N = len(sub_list), len(ref_slim)
@@ -788,13 +839,14 @@ def body_del(inp, mask, sub, verts, **_):
 
     def build():
         grid = aa.Grid2DIrregular(values=pos)
-        mg = aa.MapperGrids(mask=m, source_plane_data_grid=grid, source_plane_mesh_grid=mesh)
+        mg = aa.MapperGrids(mask=m, source_plane_data_grid=grid, source_plane_mesh_grid=mesh, adapt_data=_adapt(inp, D))
         return aa.Mapper(mapper_grids=mg, over_sampler=os_, regularization=None)
 
     mapper = hx.attempt(build)
     if isinstance(mapper, hx.Raised):
         return {"mapper_constructed": mapper}, {"mapper_constructed": "no exception"}
     A["mapper_type"], E["mapper_type"] = type(mapper).__name__, "MapperDelaunay"
+    _run_order(A, E, mapper, order, scale)
     psw = hx.attempt(lambda: mapper.pix_sub_weights)
     if isinstance(psw, hx.Raised):
         return {"pix_sub_weights": psw}, {"pix_sub_weights": "no exception"}
@@ -852,7 +904,7 @@ def body_del(inp, mask, sub, verts, **_):
     return A, E
 
 
-def case_del(ctx, mshape, sub, verts, plan, mask=None, span=4.0):
+def case_del(ctx, mshape, sub, verts, plan, mask=None, span=4.0, order=None, scale=1.0, adapt=None):
     """plan: per sub-pixel (cyclic) either "free" (fork over every simplex and 'outside') or a simplex index / -1 it is pinned to"""
     mask = _mask_from(ctx, mshape, mask)
     D = int((~mask).sum())
@@ -865,6 +917,16 @@ def case_del(ctx, mshape, sub, verts, plan, mask=None, span=4.0):
     pos = V.real_array("p", (Nmax, 2))
     cy = sum(v[0] for v in vs) / P
     cx = sum(v[1] for v in vs) / P
+    spread = []
+    if plan == "spread":
+        # per data pixel: give its sub-pixels the triangles that together touch as many distinct vertices as possible
+        for sz in SUB_PATTERNS[sub][:int(np.prod(mshape))]:
+            seen, used = set(), []
+            for _ in range(sz * sz):
+                best = max((t for t in range(S) if t not in used), key=lambda t: (len(set(simplices[t]) - seen), -t), default=0)
+                used.append(best)
+                seen |= set(simplices[best])
+                spread.append(best)
     chosen = []
     for s in range(Nmax):
         y, x = pos[s, 0], pos[s, 1]
@@ -873,7 +935,7 @@ def case_del(ctx, mshape, sub, verts, plan, mask=None, span=4.0):
         if s >= N:
             chosen.append(-1)
             continue
-        pl = plan[s % len(plan)]
+        pl = spread[s] if plan == "spread" else plan[s % len(plan)]
         if pl == "free":
             k = z3.Int("simplex_%d" % s)
             ctx.assume(z3.And(k >= -1, k < S))
@@ -892,7 +954,10 @@ def case_del(ctx, mshape, sub, verts, plan, mask=None, span=4.0):
         chosen.append(t)
     ctx.set_case(mask=mask.tolist(), simplex=chosen)
     inputs = {"pos": pos, "simplex": chosen}
-    kw = {"mask": mask.tolist(), "sub": sub, "verts": verts}
+    ad = _adapt_input(ctx, adapt, int(np.prod(mshape)))
+    if ad is not None:
+        inputs["adapt"] = ad
+    kw = {"mask": mask.tolist(), "sub": sub, "verts": verts, "order": order, "scale": scale}
     hx.run_body(ctx, body_del, inputs, kw, tol=TOLS, validate_every=8, groups=lambda k: "e2e" if k.startswith("e2e") else None)
 
 
@@ -1082,7 +1147,7 @@ def replay(cand):
     case = dict(cand["case"])
     if "mask" in case:
         kw["mask"] = case["mask"]
-    for k in ("mshape", "anchors", "regions", "plan", "span", "mode", "distinct", "lo", "hi", "L", "same_pixels"):
+    for k in ("mshape", "anchors", "regions", "plan", "span", "mode", "distinct", "lo", "hi", "L", "same_pixels", "adapt"):
         kw.pop(k, None)
     if cand["case_fn"] == "case_rect":
         kw.pop("ext", None)
